@@ -317,7 +317,6 @@ func TestVerifC17Server(t *testing.T) {
 
 func c17Ptr(c c17SrvCase) *c17SrvCase { return &c }
 
-
 // verifCleanupAll closes every session of a manager at the end of a case. The private
 // cleanup(idleOnly bool) method is called through an interface assertion, so that a refactor of
 // it does not break the harness build; without it the sessions are left to the fake sockets'
